@@ -5,8 +5,10 @@
 (* molecule_environment, atom_group_surroundings) with the returned rows   *)
 (* projected to the grid.  The expected rows are computed by TLC from the  *)
 (* space group, the asymmetric unit and the integer Gram matrix.           *)
+(* Molecule-level queries (molecular_shell, symmetry_unique_dimers) return *)
+(* whole molecules; they are judged by Dimers!ShellExpected.               *)
 (***************************************************************************)
-EXTENDS Neighbours, Reexpress, TLC, Json, IOUtils
+EXTENDS Dimers, Reexpress, TLC, Json, IOUtils
 
 CONSTANT NBlocks
 ASSUME TLCSet(1, JsonDeserialize(IOEnv.TRACE_FILE).traces)     \* parsed once, not once per worker
@@ -46,19 +48,69 @@ QueryVerdict(t, q, ucpts) ==
                          /\ (~q.rows[i].hascell \/ q.rows[i].cell = a.cell))
      THEN "REJECT Attributes" \o tag ELSE "ok"
 
+(* ---- molecule-level queries ------------------------------------------------ *)
+MolQuery(q) == q.kind \in {"molecular_shell", "symmetry_unique_dimers"}
+(* obs: sequence of observed molecules (sequences of atoms [p, z]) around the centre (set of points) *)
+ShellCheck(t, tab, ucpts, centre, obs, tag) ==
+  LET want == ShellExpected(t.gram, t.ops, t.asym, t.mols, tab, ucpts, centre, t.k, t.K, t.n)
+      got == {ObsPoints(obs[i]) : i \in DOMAIN obs}
+  IN
+  IF ~BoxCertificate(t.gram, centre, t.k, t.K, t.n) THEN "OOD box" ELSE
+  IF \E i \in DOMAIN obs : ~ObsOnCrystal(tab, obs[i], t.n) THEN "REJECT Extra" \o tag ELSE
+  IF Cardinality(got) # Len(obs) \/ \E i \in DOMAIN obs : Cardinality(ObsPoints(obs[i])) # Len(obs[i]) THEN "REJECT Duplicate" \o tag ELSE
+  IF want \ got # {} THEN "REJECT Missing" \o tag ELSE
+  IF centre \in got THEN "REJECT CentreNotExcluded" \o tag ELSE
+  IF got \ want # {} THEN "REJECT Extra" \o tag ELSE
+  IF \E i \in DOMAIN obs : ~ObsElementsOK(tab, t.asym, obs[i], t.n) THEN "REJECT Attributes" \o tag ELSE "ok"
+
+ShellVerdict(t, q, tab, ucpts) ==
+  IF q.exc # "" THEN "REJECT Raised:molecular_shell" ELSE
+  IF q.off THEN "REJECT OnGrid:molecular_shell" ELSE
+  ShellCheck(t, tab, ucpts, SeqSet(q.centre), [i \in DOMAIN q.mols |-> q.mols[i]], ":molecular_shell")
+
+DimersVerdict(t, q, tab, ucpts) ==
+  LET tag == ":symmetry_unique_dimers"
+      cents == [a \in DOMAIN q.cents |-> SeqSet(q.cents[a])]
+      pairsOf(a) == SelectSeq(q.pairs, LAMBDA pr : pr.a = a)
+      shell(a) == LET ps == pairsOf(a) IN ShellCheck(t, tab, ucpts, cents[a], [i \in DOMAIN ps |-> ps[i].atoms], tag)
+      bad == {a \in DOMAIN cents : shell(a) # "ok"}
+      P == DOMAIN q.pairs
+  IN
+  IF q.exc # "" THEN "REJECT Raised" \o tag ELSE
+  IF q.off THEN "REJECT OnGrid" \o tag ELSE
+  IF Len(q.cents) # Len(t.mols) \/ \E i \in P : q.pairs[i].a \notin DOMAIN q.cents THEN "REJECT UniqueCount" \o tag ELSE
+  IF bad # {} THEN shell(CHOOSE a \in bad : \A b \in bad : a <= b) ELSE
+  IF \E i \in P : q.pairs[i].d2 # ClosestD2(t.gram, cents[q.pairs[i].a], ObsPoints(q.pairs[i].atoms)) THEN "REJECT Separation" \o tag ELSE
+  IF \E i \in P : \E j \in P : q.pairs[i].cls = q.pairs[j].cls /\ q.pairs[i].d2 # q.pairs[j].d2 THEN "REJECT ClassDistance" \o tag ELSE
+  IF {q.pairs[i].cls : i \in P} # 1..Len(q.reps) THEN "REJECT ClassIndex" \o tag ELSE
+  IF \E r \in DOMAIN q.reps : ~\E i \in P : /\ q.pairs[i].cls = r /\ q.pairs[i].a = q.reps[r].a
+                                               /\ ObsPoints(q.pairs[i].atoms) = ObsPoints(q.reps[r].atoms)
+     THEN "REJECT Representative" \o tag ELSE "ok"
+
+AnyVerdict(t, q, tab, ucpts) ==
+  IF q.kind = "molecular_shell" THEN ShellVerdict(t, q, tab, ucpts)
+  ELSE IF q.kind = "symmetry_unique_dimers" THEN DimersVerdict(t, q, tab, ucpts)
+  ELSE QueryVerdict(t, q, ucpts)
+CentresOf(q) == IF q.kind = "symmetry_unique_dimers" THEN UNION {SeqSet(q.cents[a]) : a \in DOMAIN q.cents} ELSE SeqSet(q.centre)
+
 Verdict(t) ==
   LET tab == ImgTable(t.ops, t.asym, t.n)
       ucpts == ExpectedCellT(tab)
-      vs == [i \in DOMAIN t.queries |-> QueryVerdict(t, t.queries[i], ucpts)]
+      vs == [i \in DOMAIN t.queries |-> AnyVerdict(t, t.queries[i], tab, ucpts)]
       bad == {i \in DOMAIN vs : vs[i] # "ok"}
   IN
   IF ~(t.n % 12 = 0 /\ t.n <= 48 /\ t.K \in 1..9 /\ t.k >= 0 /\ Len(t.queries) > 0) THEN "OOD shape" ELSE
   \* 32-bit safety: |coordinate differences| <= (K+3) N, so Dist2N <= 9 maxG ((K+3)N)^2 must stay below 2^31
   IF ~(\A i \in Idx : \A j \in Idx : AbsI(t.gram[i][j]) <= 2147483647 \div (9 * ((t.K + 3) * t.n) * ((t.K + 3) * t.n))) THEN "OOD gram-magnitude" ELSE
-  IF ~(\A i \in DOMAIN t.queries : \A c \in SeqSet(t.queries[i].centre) : \A x \in Idx : AbsI(c[x]) <= 2 * t.n) THEN "OOD centre-range" ELSE
+  IF ~(\A i \in DOMAIN t.queries : \A c \in CentresOf(t.queries[i]) : \A x \in Idx : AbsI(c[x]) <= 2 * t.n) THEN "OOD centre-range" ELSE
   IF ~SwitchedFromOK(t) THEN "OOD switch-proposal" ELSE
   IF ~MetricCompatible(t.ops, t.gram) THEN "OOD metric" ELSE
   IF ~OrbitsDisjointT(tab) THEN "OOD overlapping-orbits" ELSE
+  \* molecule-level queries need the intended chemistry to be what any bonding rule finds (as in Trace_Molecules)
+  IF (\E i \in DOMAIN t.queries : MolQuery(t.queries[i])) /\
+     ~( /\ Len(t.mols) > 0 /\ ChemistryOK(t.asym, t.mols, t.bonds) /\ GeneralPositions(tab)
+        /\ ThresholdsOK(t.thr, t.n, t.u2m) /\ ReachCertificate(t.gram, t.thr, t.n)
+        /\ ContactsClear(t.gram, tab, t.asym, t.n, t.thr, t.bonds) ) THEN "OOD chemistry" ELSE
   IF bad = {} THEN "ACCEPT" ELSE vs[CHOOSE i \in bad : \A j \in bad : i <= j]
 
 Ids(b) == {i \in 1..Len(Traces) : i % NBlocks = b - 1}
